@@ -389,14 +389,19 @@ def c07_d(ctx: Ctx):
     """CLI value casting tries int before float on the raw token; parse_filter covers str / Mapping / iterable; logical tables agree."""
     R = "C07-d"
     out = []
-    f = ctx.fn("signac.filterparse:_cast")
+    # the function that turns a value token into a typed scalar: _cast, or (when it was written out) its user _parse_single
+    f = ctx.prog.funcs.get("signac.filterparse:_cast") or ctx.fn("signac.filterparse:_parse_single")
     cfg = ctx.cfg(f)
-    p = f.params[0]
+    raw = set(f.params)
+    floats = [n for n in cfg.stmt_nodes() for c in ast.walk(n.ast) if n.kind == "stmt" and isinstance(c, ast.Call) and isinstance(c.func, ast.Name) and c.func.id == "float"
+              and c.args and isinstance(c.args[0], ast.Name) and c.args[0].id in raw]
+    tok = {c.args[0].id for n in floats for c in ast.walk(n.ast) if isinstance(c, ast.Call) and isinstance(c.func, ast.Name) and c.func.id == "float" and c.args and isinstance(c.args[0], ast.Name)}
     ints = {n.id for n in cfg.stmt_nodes() for c in ast.walk(n.ast) if n.kind == "stmt" and isinstance(c, ast.Call) and isinstance(c.func, ast.Name) and c.func.id == "int"
-            and c.args and isinstance(c.args[0], ast.Name) and c.args[0].id == p}
-    floats = [n for n in cfg.stmt_nodes() for c in ast.walk(n.ast) if n.kind == "stmt" and isinstance(c, ast.Call) and isinstance(c.func, ast.Name) and c.func.id == "float"]
+            and c.args and isinstance(c.args[0], ast.Name) and c.args[0].id in (tok or raw)}
     if not ints:
-        out.append(ctx.viol(R, f, f.node, "_cast never applies int() to the raw token: integer tokens are read through float and lose precision above 2**53"))
+        out.append(ctx.viol(R, f, f.node, f"{f.name} never applies int() to the raw token: integer tokens are read through float and lose precision above 2**53"))
+    if not floats and not ints:
+        out.append(ctx.inc(R, f, f.node, "no int() / float() conversion of the value token found"))
     for fl in floats:
         w = cfg.must_pass_before(fl.id, ints, kinds="nx")
         if w is None:
@@ -498,7 +503,7 @@ def c07_d(ctx: Ctx):
     ps = ctx.fn("signac.filterparse:_parse_single")
     # key-only token => $exists; /regex/ => $regex; JSON-like => parsed JSON; else _cast
     txt = " ".join(canon(common.inline_at(ctx, ps, n.value, n)) if n.value is not None else "" for n in body_nodes(ps) if isinstance(n, ast.Return))
-    need = ["'$exists': True", "'$regex': value[1:-1]", "_parse_json(value)", "_cast(value)"]
+    need = ["'$exists': True", "'$regex': value[1:-1]", "_parse_json(value)"] + (["_cast(value)"] if "signac.filterparse:_cast" in ctx.prog.funcs else [])
     miss = [x for x in need if x not in txt]
     rx = [d for r in body_nodes(ps) if isinstance(r, ast.Return) and r.value is not None for d in ast.walk(r.value) if isinstance(d, ast.Dict)
           and any(isinstance(k, ast.Constant) and k.value == "$regex" for k in d.keys)]
